@@ -20,20 +20,33 @@ META = {
                   'message list of a sequential run of the completed calls), hist_is_interleaving (those calls are a shuffle of the thread '
                   'programs), quiescent_is_sequential, conc_ok, activation_coherent (in every reachable state a connection subscribed before '
                   'the run or sent the snapshot during it knows exactly the cache of every parameter with no call in flight), '
-                  'snapshot_after_registration, conc_ok_activation.  The models are tied to modulebase.announceUpdate, the '
+                  'snapshot_after_registration, conc_ok_activation; requests through the dispatcher are thread programs of the same system '
+                  '(change_request_coherent / read_request_coherent / do_request_coherent: the calls of the funnel a change / read / do '
+                  'request makes — assignments made by the body of write_<p> before it raises included — are part of the sequential '
+                  'history, and the connection that sent the request knows the cache like any other listener); '
+                  'tolerant_compare_drifts / tolerant_compare_breaks (a comparison with a tolerance lets a drift walk the cache away '
+                  'without a message: exactness is necessary); replay_eq_cache_canonical, activation_coherent_canonical, '
+                  'conc_ok_activation_canonical, cache_canonical (only results of the datatype ever reach the cache or the comparison — an '
+                  'invariant of the small-step system —, so exactness of != is needed on canonical values only; that law and the '
+                  'hypotheses "initial values and validate=False arguments are canonical" are tested on every case).  The models are tied to modulebase.announceUpdate, the '
                   'read/write wrappers, Parameter.__set__/finish and dispatcher.make_update/broadcast_event/handle_request/handle_activate by a '
                   'correspondence run (sequential histories with activations of several connections + labelled scheduled runs) and generated '
-                  'source facts (callbacks_all_caught, activate_shape); the Lean monitors judge every implementation trace from the '
-                  'activation of each connection on.',
-    'level_note': 'Trusted: Lean kernel + axioms propext/Quot.sound; hypothesis ExportExact (values Python\'s != does not tell apart '
-                  'have the same exported form) is re-tested on every sampled pair; callbacks re-entering the SAME parameter, callback trees deeper than one follower level, callbacks raising '
-                  'BaseException, callbacks inside the small-step (concurrent) system and DEactivation / disconnection (C08) '
-                  'are not modelled; the small-step system has one module (the per-module update locks of a general activation are '
+                  'source facts (callbacks_all_caught, activate_shape, funnel_shape: the comparison and the early returns of announceUpdate, '
+                  'fanout_shape: every selected listener is sent the message, the request handlers ignore the sending connection); '
+                  'histories contain change / read / do requests of listening and other connections, driver methods that assign the '
+                  'parameter themselves (observed after every call of the funnel), and values closer to each other than the resolution '
+                  'of their datatype (drifts); the Lean monitors judge every implementation trace from the activation of each connection on.',
+    'level_note': 'Trusted: Lean kernel + axioms propext/Quot.sound; hypothesis CanonExact (canonical values Python\'s != does not tell apart '
+                  'have the same exported form) is tested on every case; callbacks re-entering the SAME parameter, callback trees deeper than one follower level, callbacks raising '
+                  'BaseException, callbacks inside the small-step (concurrent) system, change requests with partial structs '
+                  '(validate with previous=cache) and DEactivation / disconnection (C08) are not modelled; the small-step system has one module (the per-module update locks of a general activation are '
                   'taken one after the other; only one is modelled); CPython executes a single '
                   'attribute store / list append atomically; atomicity is proved for the model\'s lock structure and validated against '
                   'the code by scheduled runs whose label sequence the model must follow.',
     'trusted': [
-        'ExportExact: two values of one exported datatype for which `a != b` is false have the same exported form (checked on every pool)',
+        'CanonExact: two CANONICAL values (results of the datatype) of one exported datatype for which `a != b` is false have the same '
+        'exported form — tested on every case (a breach is reported as a disagreement); the unrestricted law ExportExact, under which '
+        'the other theorems are stated, is false for raw values of some pools (-0.0/0.0, 1/True): use the _canonical versions',
         'vlib.sched yields before every lock/send primitive; one bytecode-level attribute store is atomic (GIL)',
         'an element of the error carrier stands for what SECoPError.__eq__ compares; the harness identifies it by (name, text)',
         'the test connections hash by their number, so the set iteration order in broadcast_event is ascending (configuration of the run)',
@@ -43,6 +56,7 @@ META = {
         'what a callback function does (oracle: returns / TypeError / other Exception, optional call of another funnel)',
         'the transport behind connection.send_reply (observed at send_reply)',
         'which parameters a specifier subscribes to (computed by the harness: all exported parameters of the module(s) / the named one)',
+        'import_value of the datum of a change request (oracle: the imported value or "refused"); partial structs are not sent',
     ],
     'assumptions': ['a connection, once activated, stays activated (deactivation and disconnection: C08)',
                     'the clock never returns 0'],
@@ -71,7 +85,25 @@ def catalogue():
                    [{'a': 'x', 'b': True}, 3, {'a': 1, 'b': True, 'c': 0}]),
         'scaled': (lambda: ScaledInteger(0.5, 0, 10), [0.0, 0.5, 1, 0.6], ['q', None]),
         'blob': (lambda: BLOBType(), [b'', b'ab', b'\x00\xff'], ['str', 5]),
+        # values that differ by LESS than what the datatype calls its resolution (and by one unit in the last place): all of
+        # them are different values of the parameter; the first six of each pool are a drift (each one close to its neighbour,
+        # the ends further apart than the resolution)
+        'floatres': (lambda: FloatRange(0, 100, absolute_resolution=0.01),
+                     [50.0, 50.004, 50.008, 50.012, 50.016, 50.02, 49.996, 50.00000000000001, 0.0, 0.004, 100.0, 99.999], ['x', None, 250.0]),
+        'floatrel': (lambda: FloatRange(relative_resolution=1e-3),
+                     [1000.0, 1000.4, 1000.8, 1001.2, 1001.6, 1002.0, 999.6, 1000.0000000000001, 0.0, 1e-9, -1000.4], ['x', None]),
+        'floatulp': (lambda: FloatRange(), [1.5, 1.5000001, 1.5000002, 1.5000003, 1.5000004, 1.5000005, 1.4999999,
+                                            1.5000000000000002, 0.0, 5e-324, 1e-7, -1.5000001], ['x', None]),
+        'arrayres': (lambda: ArrayOf(FloatRange(0, 10, absolute_resolution=0.1), 0, 2),
+                     [[1.0, 2.0], [1.04, 2.0], [1.08, 2.0], [1.08, 2.04], [1.12, 2.04], [1.16, 2.08], [1.0], []], [[1.0, 2.0, 3.0], 5]),
+        'scaledres': (lambda: ScaledInteger(0.01, 0, 10, absolute_resolution=0.05), [1.0, 1.01, 1.02, 1.03, 1.04, 1.05, 0.99, 1.004],
+                      ['q', None]),
     }
+
+
+# kinds whose pool starts with a drift: DRIFT_LEN successive values, each closer to its neighbour than the resolution
+DRIFT_KINDS = ['floatres', 'floatrel', 'floatulp', 'arrayres', 'scaledres']
+DRIFT_LEN = 6
 
 
 def error_pool():
@@ -154,9 +186,12 @@ def oracle_tables(ids, pid, dt, raws):
     return conv, valid
 
 
-def eq_pairs(ids):
-    """all ordered pairs of known values of one parameter for which `a != b` is false, and the export map"""
-    pairs, bad_law = [], 0
+def eq_pairs(ids, canon=None):
+    """all ordered pairs of known values of one parameter for which `a != b` is false, and the export map; `bad_law` counts
+    the pairs that break ExportExact (same under `!=`, different exported form) among ALL values of the pools, raw ones
+    included; with `canon` (ids of the values that can reach the cache: results of the datatype, initial and observed cache
+    values) the last result lists the pairs that break it among these — the hypothesis of `replay_eq_cache_canonical`"""
+    pairs, bad_law, bad_canon = [], 0, []
     n = len(ids.vobj)
     ex = [ids.xid(p, o) for p, o in ids.vobj]
     for i in range(n):
@@ -171,7 +206,24 @@ def eq_pairs(ids):
                 pairs.append([i, j])
                 if ex[i] != ex[j]:
                     bad_law += 1
-    return pairs, ex, bad_law
+                    if canon is not None and i in canon and j in canon:
+                        bad_canon.append([repr(ids.vobj[i][1]), repr(ids.vobj[j][1])])
+    if canon is None:
+        return pairs, ex, bad_law
+    return pairs, ex, bad_law, bad_canon
+
+
+def unvalidated_ids(wire_ops):
+    """ids of the values announced with validate=False in a list of wire operations (they must be canonical)"""
+    return [op[1] for op in wire_ops if op and op[0] == 'announce' and op[2] is None and op[3] is False and op[1] is not None]
+
+
+def canon_ids(conv, valid, caches):
+    """ids of the values that can reach the cache: every result of the datatype's conversion / validation, and every
+    value seen in a cache (`caches`: Python-level observations ['v', id] / ['e', id])"""
+    out = {row[1] for row in conv + valid if row[1] is not None}
+    out |= {c[1] for c in caches if c[0] == 'v'}
+    return out
 
 
 def window_ticks(x):
@@ -193,7 +245,7 @@ def make_class(specs):
     every generated class also has the parameter `h` that is NOT exported: no message may ever name it"""
     from frappy.datatypes import FloatRange
     from frappy.modules import Module
-    from frappy.params import Parameter
+    from frappy.params import Command, Parameter
     attrs = {'h': Parameter('not exported', FloatRange(), default=0.0, readonly=False, export=False, update_unchanged='always')}
     for pn, spec in specs.items():
         dt, default, uu, has_write, has_check = spec[:5]
@@ -202,18 +254,23 @@ def make_class(specs):
         attrs[pn] = Parameter('generated', dt, readonly=readonly, update_unchanged=uu, **kw)
 
         def rfunc(self, pn=pn):
-            r = self.script[_threading.get_ident(), pn, 'r']
+            r = run_body(self, pn, self.script[_threading.get_ident(), pn, 'r'])
             if isinstance(r, BaseException):
                 raise r
             return r
         attrs['read_' + pn] = rfunc
         if has_write:
             def wfunc(self, value, pn=pn):
-                r = self.script[_threading.get_ident(), pn, 'w']
+                r = run_body(self, pn, self.script[_threading.get_ident(), pn, 'w'])
                 if isinstance(r, BaseException):
                     raise r
                 return r
             attrs['write_' + pn] = wfunc
+        def dfunc(self, pn=pn):
+            r = run_body(self, pn, self.script[_threading.get_ident(), pn, 'd'])
+            if isinstance(r, BaseException):
+                raise r
+        attrs['cmd_' + pn] = Command(description='generated: assigns the parameter, then returns or raises')(dfunc)
         if has_check:
             def cfunc(self, value, pn=pn):
                 r = self.script[_threading.get_ident(), pn, 'c']
@@ -223,7 +280,30 @@ def make_class(specs):
             attrs['check_' + pn] = cfunc
     cls = type('Gen', (Module,), attrs)
     cls.script = None
+    cls.observe = None
     return cls
+
+
+class Body:
+    """what the body of a generated read_<p> / write_<p> does: it assigns the parameter (any number of times: a driver that
+    takes a value over, reports intermediate values, ...), then it returns or raises `result`"""
+
+    def __init__(self, inner, result):
+        self.inner = inner
+        self.result = result
+
+
+def run_body(mod, pn, r):
+    if isinstance(r, Body):
+        for v in r.inner:
+            try:
+                setattr(mod, pn, v)
+            except Exception:
+                pass
+            if mod.observe is not None:
+                mod.observe()          # the driver looks at the connections and the cache between its own calls of the funnel
+        return r.result
+    return r
 
 
 class _NoDefault:
@@ -271,33 +351,70 @@ def pool_size(kind):
     return len(valid), len(valid) + len(invalid)
 
 
-def do_op(m, case, pid, op, errs):
+def split_inner(op):
+    """['inner', [value indices], base operation] -> (indices, base); any other operation has no inner assignments"""
+    if op[0] == 'inner':
+        return list(op[1]), op[2]
+    return [], op
+
+
+def change_datum(dt, raw):
+    """what a client sends in a `change` request for the pool value `raw`: the exported form when there is one"""
+    try:
+        return dt.export_value(dt(raw))
+    except Exception:
+        return raw
+
+
+def change_import(dt, raw):
+    """(True, value handed on by `import_value`) or (False, None) when `import_value` refuses the datum"""
+    try:
+        return True, dt.import_value(change_datum(dt, raw))
+    except Exception:
+        return False, None
+
+
+def do_op(m, case, pid, op, errs, node=None, conns=None):
     """perform one operation on the real module; exceptions of the operation are part of the behaviour"""
     from frappy.modulebase import Done
     pn = PNAMES[pid]
     me = _threading.get_ident()
+    inner_idx, op = split_inner(op)
+    inner = [raw_of(case, pid, i) for i in inner_idx]
+    body = (lambda r: Body(inner, r)) if inner else (lambda r: r)
     kind = op[0]
     try:
-        if kind == 'read':
-            if op[1] == 'ret':
-                m.script[me, pn, 'r'] = raw_of(case, pid, op[2])
-            elif op[1] == 'raise':
-                m.script[me, pn, 'r'] = clone_error(errs[op[2] % len(errs)])
+        if kind in ('read', 'rread'):
+            res = op[1:] if kind == 'read' else op[2:]
+            if res[0] == 'ret':
+                m.script[me, pn, 'r'] = body(raw_of(case, pid, res[1]))
+            elif res[0] == 'raise':
+                m.script[me, pn, 'r'] = body(clone_error(errs[res[1] % len(errs)]))
             else:
-                m.script[me, pn, 'r'] = Done
-            getattr(m, 'read_' + pn)()
-        elif kind == 'write':
-            _, ridx, ck, w = op
+                m.script[me, pn, 'r'] = body(Done)
+            if kind == 'read':
+                getattr(m, 'read_' + pn)()
+            else:      # the same through the dispatcher: a `read` request of connection op[1]
+                node.request(conns[op[1] % len(conns)], 'read', 'm:_' + pn, None)
+        elif kind in ('write', 'change'):
+            ridx, ck, w = op[1:] if kind == 'write' else op[2:]
             m.script[me, pn, 'c'] = RuntimeError('check') if ck == 'raise' else (ck == 'stop')
             if w[0] == 'ret':
-                m.script[me, pn, 'w'] = raw_of(case, pid, w[1])
+                m.script[me, pn, 'w'] = body(raw_of(case, pid, w[1]))
             elif w[0] == 'raise':
-                m.script[me, pn, 'w'] = clone_error(errs[w[1] % len(errs)])
+                m.script[me, pn, 'w'] = body(clone_error(errs[w[1] % len(errs)]))
             elif w[0] == 'done':
-                m.script[me, pn, 'w'] = Done
+                m.script[me, pn, 'w'] = body(Done)
             else:
-                m.script[me, pn, 'w'] = None
-            getattr(m, 'write_' + pn)(raw_of(case, pid, ridx))
+                m.script[me, pn, 'w'] = body(None)
+            if kind == 'write':
+                getattr(m, 'write_' + pn)(raw_of(case, pid, ridx))
+            else:      # a `change` request of connection op[1]
+                node.request(conns[op[1] % len(conns)], 'change', 'm:_' + pn,
+                             change_datum(m.parameters[pn].datatype, raw_of(case, pid, ridx)))
+        elif kind == 'do':       # a `do` request of connection op[1]: the command assigns the parameter, then returns / raises
+            m.script[me, pn, 'd'] = Body(inner, clone_error(errs[op[3] % len(errs)]) if op[2] == 'raise' else None)
+            node.request(conns[op[1] % len(conns)], 'do', 'm:_cmd_' + pn, None)
         elif kind == 'assign':
             setattr(m, pn, raw_of(case, pid, op[1]))
         elif kind == 'hidden':
@@ -330,17 +447,24 @@ def clone_error(e):
     return type(e)(*e.args)
 
 
-def wire_op(ids, case, pid, op, errs):
+def wire_op(ids, case, pid, op, errs, nconn=1):
     """the operation as the Lean side sees it (numbers instead of Python objects)"""
+    inner_idx, base = split_inner(op)
+    if base[0] == 'do':
+        return ['inner', [ids.vid(pid, raw_of(case, pid, i)) for i in inner_idx], ['do', base[1] % nconn + 1]]
+    if inner_idx:
+        return ['inner', [ids.vid(pid, raw_of(case, pid, i)) for i in inner_idx], wire_op(ids, case, pid, base, errs, nconn)]
     kind = op[0]
-    if kind == 'read':
-        if op[1] == 'ret':
-            return ['read', 'ret', ids.vid(pid, raw_of(case, pid, op[2]))]
-        if op[1] == 'raise':
-            return ['read', 'raise', ids.eid(errs[op[2] % len(errs)])]
-        return ['read', 'done']
-    if kind == 'write':
-        _, ridx, ck, w = op
+    if kind in ('read', 'rread'):
+        head = ['read'] if kind == 'read' else ['rread', op[1] % nconn + 1]
+        res = op[1:] if kind == 'read' else op[2:]
+        if res[0] == 'ret':
+            return head + ['ret', ids.vid(pid, raw_of(case, pid, res[1]))]
+        if res[0] == 'raise':
+            return head + ['raise', ids.eid(errs[res[1] % len(errs)])]
+        return head + ['done']
+    if kind in ('write', 'change'):
+        ridx, ck, w = op[1:] if kind == 'write' else op[2:]
         ps = case['params'][pid]
         checks_ok = not (ps['has_check'] and ck == 'raise')
         if not ps['has_write']:
@@ -353,7 +477,10 @@ def wire_op(ids, case, pid, op, errs):
             wres = ['done']
         else:
             wres = ['none']
-        return ['write', ids.vid(pid, raw_of(case, pid, ridx)), checks_ok, wres]
+        if kind == 'write':
+            return ['write', ids.vid(pid, raw_of(case, pid, ridx)), checks_ok, wres]
+        ok, imp = change_import(ids.dts[pid], raw_of(case, pid, ridx))
+        return ['change', op[1] % nconn + 1, bool(ps.get('readonly', False)), ids.vid(pid, imp) if ok else None, checks_ok, wres]
     if kind == 'assign':
         return ['assign', ids.vid(pid, raw_of(case, pid, op[1]))]
     if kind == 'hidden':
@@ -362,6 +489,10 @@ def wire_op(ids, case, pid, op, errs):
     value, validate = announce_arg(ids.dts[pid], case, pid, vidx, eidx, validate)
     return ['announce', None if vidx is None else ids.vid(pid, value),
             None if eidx is None else ids.eid(errs[eidx % len(errs)]), bool(validate)]
+
+
+def op_kind(op):
+    return split_inner(op)[1][0]
 
 
 def cache_obs(ids, m, pid):
@@ -409,7 +540,13 @@ def norm_steps(steps):
 
 
 def n_conns(steps):
-    return 1 + max(st[1][1] for st in steps if st[1][0] == 'activate')
+    """connections of a history: those that activate and those that send requests"""
+    n = 1
+    for st in steps:
+        base = split_inner(st[1])[1]
+        if base[0] in ('activate', 'change', 'rread', 'do'):
+            n = max(n, base[1] + 1)
+    return n
 
 
 def act_pids(op, npids):
@@ -473,6 +610,27 @@ def drop_loggers(node):
         del d[name]
 
 
+def pool_closure(dt, raws):
+    """the pool and what a `change` request makes of its values: `import_value` of the datum, and the validated value (the
+    write wrapper validates what `_setParameterValue` has validated already)"""
+    out = list(raws)
+    seen = {(type(r).__name__, repr(r)) for r in raws}
+    for raw in raws:
+        ok, imp = change_import(dt, raw)
+        cand = [imp] if ok else []
+        for _ in range(2):
+            try:
+                cand.append(dt.validate(cand[-1]))
+            except Exception:
+                break
+        for c in cand:
+            key = (type(c).__name__, repr(c))
+            if key not in seen:
+                seen.add(key)
+                out.append(c)
+    return out
+
+
 def prepare(case, errs):
     """ids, oracle tables and the initial entries of a freshly built node (the node is thrown away)"""
     clock = Clock(T0)
@@ -481,7 +639,7 @@ def prepare(case, errs):
     conv, valid = [], []
     for pid, ps in enumerate(case['params']):
         _, nall = pool_size(ps['kind'])
-        c, v = oracle_tables(ids, pid, dts[pid], [raw_of(case, pid, i) for i in range(nall)])
+        c, v = oracle_tables(ids, pid, dts[pid], pool_closure(dts[pid], [raw_of(case, pid, i) for i in range(nall)]))
         conv += c
         valid += v
         ids.vid(pid, m.parameters[PNAMES[pid]].value)
@@ -517,8 +675,15 @@ def impl_seq(case, errs, tables):
         real_window = int(round(m.parameters['p'].omit_unchanged_within * TICKS))
         init_py, init_x, _ = cache_obs(ids, m, 0)
         now = T0
-        ops, outs = [], []
-        for dt, op in steps:
+        ops, outs, fsteps = [], [], []
+
+        def point(si, extra=()):
+            # one observation point: what every connection received since the last one, and the cache
+            recv, other = drain_conns(ids, conns, spec_pid)
+            py, x, ts = cache_obs(ids, m, 0)
+            outs.append({'recv': recv, 'cache_py': py, 'cache_x': x, 'caches_x': [x], 'ts': ts, 'other': other + list(extra),
+                         'step': si})
+        for si, (dt, op) in enumerate(steps):
             now += dt
             clock.ticks = now
             failed = []
@@ -528,19 +693,23 @@ def impl_seq(case, errs, tables):
                 if reply[0] != 'active':
                     failed = ['activate:' + str(reply[0])]
             else:
-                ops.append({'now': now, 'op': wire_op(ids, case, 0, op, errs)})
-                do_op(m, case, 0, op, errs)
-            recv, other = drain_conns(ids, conns, spec_pid)
-            py, x, ts = cache_obs(ids, m, 0)
-            outs.append({'recv': recv, 'cache_py': py, 'cache_x': x, 'caches_x': [x], 'ts': ts, 'other': other + failed})
+                ops.append({'now': now, 'op': wire_op(ids, case, 0, op, errs, len(conns))})
+                m.observe = lambda si=si: (point(si), fsteps.append([0, ['body']]))
+                do_op(m, case, 0, op, errs, node, conns)
+                m.observe = None
+            point(si, failed)
+            fsteps.append([dt, op])
         main = next(st[1][1] for st in steps if st[1][0] == 'activate')
         for o in outs:
             o['msgs'] = [[ve, t] for _, ve, t in o['recv'][main]]
-        pairs, ex, bad_law = eq_pairs(ids)
+        canon = canon_ids(conv, valid, [init_py] + [o['cache_py'] for o in outs])
+        pairs, ex, bad_law, bad_canon = eq_pairs(ids, canon)
+        bad_canon += [['announced with validate=False but not a result of the datatype', repr(ids.vobj[i][1])]
+                      for i in unvalidated_ids([o['op'] for o in ops]) if i not in canon_ids(conv, valid, [])]
         req = {'p': 'C05', 'k': 'seq', 'eq': pairs, 'conv': conv, 'valid': valid, 'entry': entry, 'ops': ops,
                'cids': list(range(1, len(conns) + 1))}
-        return {'req': req, 'outs': outs, 'init_x': init_x, 'init_py': init_py, 'ex': ex, 'bad_law': bad_law,
-                'real_window': real_window, 'steps': steps}
+        return {'req': req, 'outs': outs, 'init_x': init_x, 'init_py': init_py, 'ex': ex, 'bad_law': bad_law, 'bad_canon': bad_canon,
+                'real_window': real_window, 'steps': steps, 'fsteps': fsteps}
     finally:
         mb.time = saved
         if 'node' in locals():
@@ -569,32 +738,54 @@ def compare_seq(run, ans):
 
 
 def judge_reqs_seq(run):
-    return stream_judge_reqs(run['steps'], run['outs'], [run['init_x']], 1)
+    return stream_judge_reqs(run['fsteps'], run['outs'], [run['init_x']], 1)
 
 
-def first_bad(jreqs, answers):
-    """first stream the monitor rejects: (connection index, pid, step index, clause)"""
+def first_bad(jreqs, answers, outs=None):
+    """first stream the monitor rejects: (connection index, pid, step index, clause); with `outs` the index of the
+    observation point is turned into the index of the step of the history it belongs to"""
     for (ci, pid, first, _), jd in zip(jreqs, answers):
         if jd.get('bad') is not None:
-            return [ci, pid, first + jd['bad'][0], jd['bad'][1]]
+            at = first + jd['bad'][0]
+            return [ci, pid, outs[at]['step'] if outs is not None else at, jd['bad'][1]]
     return None
 
 
 def gen_op(rng, ps, nvalid, nall, nerr):
+    if rng.random() < 0.05:
+        # a `do` request: the command assigns the parameter (0-2 times) and returns or raises
+        val = lambda: rng.randrange(nvalid) if rng.random() < 0.85 else rng.randrange(nall)   # noqa: E731
+        return ['inner', [val() for _ in range(rng.choice([0, 1, 1, 2]))],
+                ['do', rng.choice([0, 0, 0, 1]), rng.choice(['ret', 'ret', 'raise']), rng.randrange(nerr)]]
+    op = gen_base_op(rng, ps, nvalid, nall, nerr)
+    # a driver method that assigns the parameter itself before it returns / raises
+    if op[0] in ('read', 'write', 'change', 'rread') and rng.random() < 0.15:
+        val = lambda: rng.randrange(nvalid) if rng.random() < 0.85 else rng.randrange(nall)   # noqa: E731
+        op = ['inner', [val() for _ in range(rng.choice([1, 1, 2]))], op]
+    return op
+
+
+def gen_base_op(rng, ps, nvalid, nall, nerr):
     r = rng.random()
     val = lambda: rng.randrange(nvalid) if rng.random() < 0.8 else rng.randrange(nall)   # noqa: E731
-    if r < 0.30:
+    who = lambda: rng.choice([0, 0, 0, 1])                                                # noqa: E731
+    wres = lambda: rng.choice([['none'], ['none'], ['ret', val()], ['ret', val()], ['raise', rng.randrange(nerr)], ['done']])  # noqa: E731
+    if r < 0.26:
         return ['read', 'ret', val()]
-    if r < 0.45:
+    if r < 0.39:
         return ['read', 'raise', rng.choice([0, 0, 1, 3]) if rng.random() < 0.7 else rng.randrange(nerr)]
-    if r < 0.48:
+    if r < 0.42:
         return ['read', 'done']
-    if r < 0.66:
-        w = rng.choice([['none'], ['none'], ['ret', val()], ['ret', val()], ['raise', rng.randrange(nerr)], ['done']])
-        return ['write', val(), rng.choice(['ok', 'ok', 'ok', 'stop', 'raise']), w]
-    if r < 0.81:
+    if r < 0.56:
+        return ['write', val(), rng.choice(['ok', 'ok', 'ok', 'stop', 'raise']), wres()]
+    # the same through the dispatcher: `change` / `read` requests of a connection (usually one that listens itself)
+    if r < 0.65:
+        return ['change', who(), val(), rng.choice(['ok', 'ok', 'ok', 'ok', 'stop', 'raise']), wres()]
+    if r < 0.70:
+        return ['rread', who()] + rng.choice([['ret', val()], ['ret', val()], ['raise', rng.choice([0, 1, 3])], ['done']])
+    if r < 0.82:
         return ['assign', val()]
-    if r < 0.84:
+    if r < 0.85:
         return ['hidden', rng.randrange(3)]
     if r < 0.92:
         return ['announce', None if rng.random() < 0.5 else val(), rng.choice([0, 0, 1, 3, 6]), True]
@@ -606,6 +797,23 @@ def gen_params(rng, n):
     return [{'kind': rng.choice(kinds), 'uu': rng.choice(UU), 'nodefault': rng.random() < 0.2,
              'has_write': rng.random() < 0.7, 'has_check': rng.random() < 0.3, 'readonly': rng.random() < 0.3}
             for _ in range(n)]
+
+
+def gen_drift(rng, n, steps):
+    """n successive operations that move the value along the drift of the pool, one neighbour at a time"""
+    idx = rng.randrange(DRIFT_LEN)
+    up = rng.random() < 0.7
+    out = []
+    for _ in range(n):
+        if idx == DRIFT_LEN - 1:
+            up = False
+        elif idx == 0:
+            up = True
+        idx += 1 if up else -1
+        op = rng.choice([['read', 'ret', idx], ['read', 'ret', idx], ['assign', idx], ['write', idx, 'ok', ['none']],
+                         ['write', 0, 'ok', ['ret', idx]], ['announce', idx, None, rng.random() < 0.5]])
+        out.append([rng.choice([0, 0, 1, 1, rng.choice(steps)]), op])
+    return out
 
 
 def gen_seq(rng, big):
@@ -625,6 +833,10 @@ def gen_seq(rng, big):
             op = list(sticky)                      # repeat the previous operation (unchanged value / identical error)
         sticky = op
         case['ops'].append([rng.choice(steps), op])
+    # drift: successive values each closer to the previous one than the resolution of the datatype, at short intervals
+    if params[0]['kind'] in DRIFT_KINDS and rng.random() < 0.7:
+        at = rng.randrange(len(case['ops']) + 1)
+        case['ops'][at:at] = gen_drift(rng, rng.randint(2, 12 if big else 7), steps)
     # activations: most histories start with one; more connections join (or re-activate) at random places
     if rng.random() < 0.85:
         case['ops'].insert(0, [0, ['activate', 0, rng.choice(ACT_KINDS), 0]])
@@ -709,7 +921,7 @@ def impl_conc(case, errs, tables, policy):
                     if op[0] == 'activate':
                         node.request(conns[op[1] % nconn], 'activate', conc_spec(op[2], op[3], npar), None)
                     else:
-                        do_op(m, case, pid, op, errs)
+                        do_op(m, case, pid, op, errs, node, conns)
                 s.yield_(('end',))        # makes the end of the thread's last segment visible in the trace
             for i, prog in enumerate(case['progs']):
                 s.spawn(f't{i}', runprog, (prog,))
@@ -741,16 +953,19 @@ def impl_conc(case, errs, tables, policy):
             logs_x.append(per)
             logs_t.append(pert)
         final = [cache_obs(ids, m, pid) for pid in range(npar)]
-        pairs, ex, bad_law = eq_pairs(ids)
+        pairs, ex, bad_law, bad_canon = eq_pairs(ids, canon_ids(conv, valid, [f[0] for f in final]))
+        bad_canon += [['announced with validate=False but not a result of the datatype', repr(ids.vobj[i][1])]
+                      for prog in case['progs'] for pid, op in prog if op[0] == 'announce'
+                      for i in unvalidated_ids([wire_op(ids, case, pid, op, errs, nconn)]) if i not in canon_ids(conv, valid, [])]
         req = {'p': 'C05', 'k': 'conc', 'eq': pairs, 'conv': conv, 'valid': valid, 'entries': entries,
                'conns': visit_order, 'tick': case['tick'], 'clock': clock0,
                'progs': [[{'activate': op[1] % nconn + 1, 'ps': conc_pids(op[2], op[3], npar)} if op[0] == 'activate' else
-                          {'p': pid, 'op': wire_op(ids, case, pid, op, errs),
+                          {'p': pid, 'op': wire_op(ids, case, pid, op, errs, nconn),
                            'ts': ts_wire(op[4], T0) if op[0] == 'announce' and len(op) > 4 else None}
                          for pid, op in prog] for prog in case['progs']],
                'act0': [[ci % nconn + 1, conc_pids(kind, target, npar)] for ci, kind, target in conc_pre(case)],
                'labels': labels}
-        obs = {'init_x': init_x, 'logs_x': logs_x, 'logs_t': logs_t, 'final': final, 'ex': ex, 'bad_law': bad_law,
+        obs = {'init_x': init_x, 'logs_x': logs_x, 'logs_t': logs_t, 'final': final, 'ex': ex, 'bad_law': bad_law, 'bad_canon': bad_canon,
                'sched': out, 'unknown': unknown, 'visit_order': visit_order, 'choices': [c[1] for c in s.choices]}
         return req, obs, s
     finally:
@@ -816,10 +1031,16 @@ def gen_kernel(rng):
     by assignment, read, write, announce; failing read), sometimes a third thread that activates a second connection;
     small enough that all schedules with one preemption are enumerated"""
     cat = [['assign', 0], ['assign', 1], ['read', 'ret', 0], ['read', 'ret', 1], ['read', 'raise', 0],
-           ['write', 1, 'ok', ['none']], ['announce', 0, None, False]]
-    params = [{'kind': rng.choice(['float', 'int', 'enum', 'string']), 'uu': rng.choice(['default', 'never', 2.0, 'always']),
-               'nodefault': False, 'has_write': rng.random() < 0.5, 'has_check': False, 'readonly': False}]
-    progs = [[[0, list(rng.choice(cat))]], [[0, list(rng.choice(cat))]]]
+           ['write', 1, 'ok', ['none']], ['announce', 0, None, False],
+           # requests of the connection that listens (0) or of the other one, also with a write_ that takes the value over
+           # and fails then
+           ['change', 0, 1, 'ok', ['none']], ['change', 0, 0, 'ok', ['raise', 2]], ['change', 1, 1, 'ok', ['ret', 2]],
+           ['inner', [1], ['change', 0, 0, 'ok', ['raise', 2]]], ['inner', [2], ['write', 1, 'ok', ['raise', 0]]],
+           ['rread', 0, 'ret', 1], ['inner', [1], ['read', 'raise', 0]], ['inner', [1], ['do', 0, 'ret', 0]],
+           ['inner', [2, 1], ['do', 0, 'raise', 2]]]
+    params = [{'kind': rng.choice(['float', 'int', 'enum', 'string', 'floatres']), 'uu': rng.choice(['default', 'never', 2.0, 'always']),
+               'nodefault': False, 'has_write': rng.random() < 0.7, 'has_check': False, 'readonly': False}]
+    progs = [[[0, json.loads(json.dumps(rng.choice(cat)))]], [[0, json.loads(json.dumps(rng.choice(cat)))]]]
     if rng.random() < 0.4:
         progs.append([[None, ['activate', 1, rng.choice(ACT_KINDS), 0]]])
     return {'params': params, 'mw': rng.choice([None, 1.0]), 'gw': rng.choice([0.0, 1.0]), 'nconn': 2, 'pre': [[0, 'all', 0]],
@@ -865,7 +1086,7 @@ def gen_conc(rng, big):
     npar = rng.choice([1, 1, 2])
     params = gen_params(rng, npar)
     for ps in params:
-        ps['kind'] = rng.choice(['float', 'int', 'enum', 'string', 'tuple'])
+        ps['kind'] = rng.choice(['float', 'int', 'enum', 'string', 'tuple', 'floatres', 'floatulp'])
     nthreads = rng.choice([1, 2, 2, 2, 3])
     nerr = len(error_pool())
     progs = []
@@ -1136,7 +1357,7 @@ def impl_follow(case, errs, tables):
         ids = Ids(dts)
         ps = case['params'][0]
         _, nall = pool_size(ps['kind'])
-        conv, valid = oracle_tables(ids, 0, dts[0], [raw_of(case, 0, i) for i in range(nall)])
+        conv, valid = oracle_tables(ids, 0, dts[0], pool_closure(dts[0], [raw_of(case, 0, i) for i in range(nall)]))
         for pid in range(n):
             ids.vid(pid, mods[pid].parameters['p'].value)
         for e in errs:
@@ -1157,8 +1378,14 @@ def impl_follow(case, errs, tables):
         real_windows = [int(round(mods[pid].parameters['p'].omit_unchanged_within * TICKS)) for pid in range(n)]
         init = [cache_obs_of(ids, mods[pid], pid) for pid in range(n)]
         now = T0
-        ops, outs = [], []
-        for step in steps:
+        ops, outs, fsteps = [], [], []
+
+        def point(si, extra=()):
+            recv, other = drain_conns(ids, conns, fspec_pid)
+            caches = [cache_obs_of(ids, mods[pid], pid) for pid in range(n)]
+            outs.append({'recv': recv, 'other': other + list(extra), 'caches': caches, 'caches_x': [c[1] for c in caches],
+                         'step': si})
+        for si, step in enumerate(steps):
             dt, op = step[0], step[1]
             ts = step[2] if len(step) > 2 else None
             now += dt
@@ -1173,7 +1400,7 @@ def impl_follow(case, errs, tables):
                     failed = ['activate:' + str(reply[0])]
             else:
                 ops.append({'now': now, 'ts': ts_wire(ts, now) if op[0] == 'announce' else None,
-                            'op': wire_op(ids, case, 0, op, errs)})
+                            'op': wire_op(ids, case, 0, op, errs, len(conns))})
                 if op[0] == 'announce' and ts is not None:
                     _, vidx, eidx, validate = op
                     value, validate = announce_arg(dts[0], case, 0, vidx, eidx, validate)
@@ -1183,10 +1410,11 @@ def impl_follow(case, errs, tables):
                     except Exception:
                         pass
                 else:
-                    do_op(m, case, 0, op, errs)
-            recv, other = drain_conns(ids, conns, fspec_pid)
-            caches = [cache_obs_of(ids, mods[pid], pid) for pid in range(n)]
-            outs.append({'recv': recv, 'other': other + failed, 'caches': caches, 'caches_x': [c[1] for c in caches]})
+                    m.observe = lambda si=si: (point(si), fsteps.append([0, ['body']]))
+                    do_op(m, case, 0, op, errs, node, conns)
+                    m.observe = None
+            point(si, failed)
+            fsteps.append(list(step))
         main = next(st[1][1] for st in steps if st[1][0] == 'activate')
         for o in outs:
             o['msgs'] = o['recv'][main]
@@ -1216,11 +1444,11 @@ def impl_follow(case, errs, tables):
                 oc, nested = follower_outcome(fs, triggers, None, True)
                 rows.append([['e', eid], oc, ['error', eid] if nested == 'error' else None])
             followers.append({'q': q, 'rows': rows})
-        pairs, ex, bad_law = eq_pairs(ids)
+        pairs, ex, bad_law, bad_canon = eq_pairs(ids, canon_ids(conv, valid, [i[0] for i in init] + [c[0] for o in outs for c in o['caches']]))
         req = {'p': 'C05', 'k': 'seqm', 'eq': pairs, 'conv': conv, 'valid': valid, 'entries': entries,
                'followers': followers, 'ops': ops, 'cids': list(range(1, len(conns) + 1))}
-        return {'req': req, 'outs': outs, 'init': init, 'ex': ex, 'bad_law': bad_law, 'real_windows': real_windows, 'n': n,
-                'steps': steps}
+        return {'req': req, 'outs': outs, 'init': init, 'ex': ex, 'bad_law': bad_law, 'bad_canon': bad_canon, 'real_windows': real_windows, 'n': n,
+                'steps': steps, 'fsteps': fsteps}
     finally:
         mb.time = saved
         if 'node' in locals():
@@ -1244,7 +1472,7 @@ def compare_follow(run, ans):
 
 
 def judge_reqs_follow(run):
-    return stream_judge_reqs(run['steps'], run['outs'], [i[1] for i in run['init']], run['n'])
+    return stream_judge_reqs(run['fsteps'], run['outs'], [i[1] for i in run['init']], run['n'])
 
 
 def gen_follow(rng, big):
@@ -1268,7 +1496,7 @@ def gen_follow(rng, big):
 def follow_fails(ctx, case, errs, tables):
     run = impl_follow(case, errs, tables)
     jreqs = judge_reqs_follow(run)
-    return first_bad(jreqs, ctx.driver.batch([r[3] for r in jreqs]))
+    return first_bad(jreqs, ctx.driver.batch([r[3] for r in jreqs]), run['outs'])
 
 # ----------------------------------------------------------------------------------------
 def _tables(ctx):
@@ -1278,7 +1506,7 @@ def _tables(ctx):
 def seq_fails(ctx, case, errs, tables):
     run = impl_seq(case, errs, tables)
     jreqs = judge_reqs_seq(run)
-    return first_bad(jreqs, ctx.driver.batch([r[3] for r in jreqs]))
+    return first_bad(jreqs, ctx.driver.batch([r[3] for r in jreqs]), run['outs'])
 
 
 def run(ctx):
@@ -1286,7 +1514,10 @@ def run(ctx):
     res = Result()
     res.rule = ('every connection is judged from its own activate request on (general / module / parameter subscription, at the '
                 'start or in the middle of the history, 1-3 connections, re-activation included).  sequential: generated histories (read ok / raising / invalid / Done, write with every write_ outcome and check '
-                'function, assignment, explicit announceUpdate with and without error, repeats) on one generated parameter of 10 '
+                'function, assignment, explicit announceUpdate with and without error, repeats; change / read / do requests of a '
+                'listening or another connection through the dispatcher; driver methods and commands whose body assigns the parameter '
+                'before it returns or raises, observed after every call of the funnel; drifts of values closer than the resolution '
+                'of the datatype) on one generated parameter of 15 '
                 'datatypes under every update_unchanged / module / general window setting with clock steps inside, at and outside the '
                 'window; non-trivial = at least one message suppressed, one error announced and one recovery.  concurrent: 1-3 threads '
                 'x 1-3 operations on 1-2 parameters, 1-3 connections, systematic exploration with <= 2 preemptions plus random '
@@ -1330,7 +1561,7 @@ def run(ctx):
             res.count('seq.kind=' + ps['kind'])
             res.count('seq.uu=' + str(ps['uu']))
             nmsg = sum(len(o['msgs']) for o in r['outs'])
-            nsup = sum(1 for o, st in zip(r['outs'], r['steps']) if not o['msgs'] and st[1][0] != 'activate')
+            nsup = sum(1 for o, st in zip(r['outs'], r['fsteps']) if not o['msgs'] and st[1][0] != 'activate')
             nerr = sum(1 for o in r['outs'] for ve, _ in o['msgs'] if ve[0] == 'e')
             nrec = sum(1 for a, b in zip([{'cache_x': r['init_x']}] + r['outs'], r['outs'])
                        if a['cache_x'][0] == 'e' and b['cache_x'][0] == 'v')
@@ -1342,19 +1573,36 @@ def run(ctx):
             res.count('seq.activations=' + ('1' if nact == 1 else '2' if nact == 2 else '3+'))
             res.count('seq.activation-mid-history=' + ('yes' if late else 'no'))
             res.count('seq.snapshot-of=' + ('error' if any(st[1][0] == 'activate' and o['cache_x'][0] == 'e'
-                                                           for o, st in zip(r['outs'], r['steps'])) else 'value'))
+                                                           for o, st in zip(r['outs'], r['fsteps'])) else 'value'))
             if r['bad_law']:
-                res.count('seq.export-law-broken')
+                res.count('seq.export-law-broken-by-raw-values')
+            bases = [split_inner(st[1])[1] for st in r['steps']]
+            nreq = sum(1 for b in bases if b[0] in ('change', 'rread', 'do'))
+            listening = {st[1][1] for st in r['steps'] if st[1][0] == 'activate'}
+            res.count('seq.requests=' + ('0' if nreq == 0 else '1-2' if nreq < 3 else '3+'))
+            if nreq:
+                res.count('seq.requester-listens=' + ('yes' if any(b[0] in ('change', 'rread', 'do') and b[1] in listening for b in bases)
+                                                      else 'no'))
+            res.count('seq.driver-body-assigns=' + ('yes' if any(st[1][0] == 'inner' for st in r['steps']) else 'no'))
+            near = sum(1 for a, b in zip([{'cache_py': r['init_py'], 'cache_x': r['init_x']}] + r['outs'], r['outs'])
+                       if a['cache_py'][0] == 'v' and b['cache_py'][0] == 'v' and a['cache_py'] != b['cache_py']
+                       and ps['kind'] in DRIFT_KINDS)
+            if ps['kind'] in DRIFT_KINDS:
+                res.count('seq.value-steps-on-resolution-kinds=' + ('0' if near == 0 else '1-3' if near < 4 else '4+'))
             if nsup and nerr and nrec:
                 res.nontriv(case)
                 if len(res.samples) < 3 and len(case['ops']) < 8:
                     res.samples.append({'kind': 'seq', 'case': case,
                                         'obs': [[o['recv'], o['cache_x']] for o in r['outs']]})
+            if r['bad_canon']:
+                res.disagreements.append({'case': {'kind': 'seq', 'case': case}, 'impl': 'see replay',
+                                          'model': f'hypothesis CanonExact broken: values that reach the cache, equal under != '
+                                                   f'but exported differently: {r["bad_canon"][:3]}'})
             if ctx.model_ok:
                 diff = compare_seq(r, ans)
                 if diff:
                     res.disagreements.append({'case': {'kind': 'seq', 'case': case}, 'model': diff, 'impl': 'see replay'})
-            bad0 = first_bad(r['jreqs'], jds)
+            bad0 = first_bad(r['jreqs'], jds, r['outs'])
             if bad0 is not None:
                 small = case
                 if shrunk < 3:
@@ -1400,11 +1648,14 @@ def run(ctx):
             res.count('follow.nested-messages=' + ('0' if nested == 0 else '1+'))
             if escaped and nested:
                 res.nontriv(case)
+            if r['bad_canon']:
+                res.disagreements.append({'case': {'kind': 'follow', 'case': case}, 'impl': 'see replay',
+                                          'model': f'hypothesis CanonExact broken: {r["bad_canon"][:3]}'})
             if ctx.model_ok:
                 diff = compare_follow(r, ans)
                 if diff:
                     res.disagreements.append({'case': {'kind': 'follow', 'case': case}, 'model': diff, 'impl': 'see replay'})
-            bad0 = first_bad(r['jreqs'], jds)
+            bad0 = first_bad(r['jreqs'], jds, r['outs'])
             if bad0 is not None:
                 small = case
                 if shrunk < 6:
@@ -1497,6 +1748,8 @@ def run(ctx):
                 else:
                     touched.setdefault(pid, set()).add(ti)
         res.count('conc.activations-during-run=%d' % nact)
+        nreq = sum(1 for prog in case['progs'] for _, op in prog if split_inner(op)[1][0] in ('change', 'rread', 'do'))
+        res.count('conc.requests-during-run=' + ('0' if nreq == 0 else '1' if nreq == 1 else '2+'))
         res.count('conc.pre-activated=%d' % len({c % case['nconn'] for c, _, _ in conc_pre(case)}))
         if any(len(v) > 1 for v in touched.values()) and nmsg >= 2:
             res.nontriv({'case': case, 'choices': obs['choices']})
@@ -1504,6 +1757,9 @@ def run(ctx):
                 res.samples.append({'kind': 'conc', 'progs': case['progs'], 'choices': obs['choices'],
                                     'log_conn1': obs['logs_x'][0]})
         fixed = dict(case, choices=obs['choices'])
+        if obs['bad_canon']:
+            res.disagreements.append({'case': {'kind': 'conc', 'case': fixed}, 'impl': 'see replay',
+                                      'model': f'hypothesis CanonExact broken: {obs["bad_canon"][:3]}'})
         if ctx.model_ok:
             diff = compare_conc(obs, ans)
             if diff:
@@ -1545,7 +1801,7 @@ def replay(ctx, rp):
         answers = ctx.driver.batch([r['req']] + [q[3] for q in jreqs])
         print('case  :', json.dumps(case['case']))
         for i, o in enumerate(r['outs']):
-            print(f'  step {i}: {r["steps"][i]} -> per connection {o["recv"]} cache {o["cache_x"]}@{o["ts"]}')
+            print(f'  step {o["step"]}: {r["fsteps"][i]} -> per connection {o["recv"]} cache {o["cache_x"]}@{o["ts"]}')
         print('model :', compare_seq(r, answers[0]) or 'agrees with the implementation')
         print('judge :', [(f'conn {ci + 1}', f'from step {first}', jd) for (ci, _, first, _), jd in zip(jreqs, answers[1:])])
         return 0 if all(a.get('bad') is None for a in answers[1:]) else 1
@@ -1555,7 +1811,7 @@ def replay(ctx, rp):
         answers = ctx.driver.batch([r['req']] + [q[3] for q in jreqs])
         print('case  :', json.dumps(case['case']))
         for i, o in enumerate(r['outs']):
-            print(f'  step {i}: {r["steps"][i]} -> per connection {o["recv"]} caches {o["caches_x"]}')
+            print(f'  step {o["step"]}: {r["fsteps"][i]} -> per connection {o["recv"]} caches {o["caches_x"]}')
         print('model :', compare_follow(r, answers[0]) or 'agrees with the implementation')
         print('judge :', [(f'conn {ci + 1}', f'param {pid}', f'from step {first}', jd)
                           for (ci, pid, first, _), jd in zip(jreqs, answers[1:])])
